@@ -144,6 +144,7 @@ func (a *Aggregate) nextLine() (line *line.Line, ok bool, noMoreChannels bool) {
 			case a.linesCh = <-a.NextLinesCh:
 			default:
 				// Only done when nobody is about to queue another channel.
+				verifhook.At("aggregate.check", a)
 				noMoreChannels = atomic.LoadInt32(&a.pending) == 0
 				if noMoreChannels {
 					verifhook.At("aggregate.nomore", a)
